@@ -138,3 +138,12 @@ impl DiagnosticMessage for Error {
         }
     }
 }
+
+#[cfg(vrl_verif)]
+impl Not {
+    /// verification hook: the negated expression.
+    #[must_use]
+    pub fn verif_inner(&self) -> &Expr {
+        &self.inner
+    }
+}
